@@ -162,7 +162,7 @@ func (e *Engine) VerifyFunction(fn *ssa.Function, con *Contract, prof *Profile) 
 	// a loop specification on a loop the symbolic execution never reached (dead code) is unbound: its
 	// invariants and body_ensures would generate no obligation at all
 	for _, li := range fr.loops {
-		if li.spec != nil && li.hdrSt == nil {
+		if li.spec != nil && li.explicit && li.hdrSt == nil {
 			c.fail("contract unbound: loop %d of %s carries a specification but is never reached", li.ordinal, funcKey(fn))
 		}
 	}
